@@ -220,6 +220,7 @@ func (u *Unit) mapGet(st *State, t *types.Map, m Term, k Val) Val {
 		}
 		v.Arr, v.Off, v.Len, v.Cap = get(".arr"), get(".off"), get(".len"), get(".cap")
 		u.assumeOnce(st, u.typeAssume(v))
+		u.assumeOnce(st, tLt(v.Arr, st.frontier))
 		return v
 	}
 	vs := sortOf(t.Elem())
@@ -265,8 +266,8 @@ func (u *Unit) mapSet(st *State, t *types.Map, m Term, k Val, v Val) {
 	card := tSel(ch, m)
 	u.assumeOnce(st, tLe("0", card))
 	u.assumeOnce(st, tImp(had, tLt("0", card)))
-	u.logWrite(c, m)
-	u.logWrite(d, m)
+	u.logWrite(st, c, m)
+	u.logWrite(st, d, m)
 	u.setHeap(st, c, sArr(SInt, SInt), tStore(ch, m, tIte(had, card, tAdd(card, "1"))))
 	u.setHeap(st, d, dsort, tStore(dh, m, tStore(tSel(dh, m), k.S, "true")))
 	if isSliceT(t.Elem()) {
@@ -276,7 +277,7 @@ func (u *Unit) mapSet(st *State, t *types.Map, m Term, k Val, v Val) {
 		}{{".arr", v.Arr}, {".off", v.Off}, {".len", v.Len}, {".cap", v.Cap}} {
 			sort := sArr(SInt, sArr(ks, SInt))
 			h := u.heapTerm(st, vh+cc.suf, sort)
-			u.logWrite(vh+cc.suf, m)
+			u.logWrite(st, vh+cc.suf, m)
 			u.setHeap(st, vh+cc.suf, sort, tStore(h, m, tStore(tSel(h, m), k.S, cc.t)))
 		}
 		return
@@ -284,7 +285,7 @@ func (u *Unit) mapSet(st *State, t *types.Map, m Term, k Val, v Val) {
 	vs := sortOf(t.Elem())
 	sort := sArr(SInt, sArr(ks, vs))
 	h := u.heapTerm(st, vh, sort)
-	u.logWrite(vh, m)
+	u.logWrite(st, vh, m)
 	u.setHeap(st, vh, sort, tStore(h, m, tStore(tSel(h, m), k.S, v.S)))
 }
 
@@ -298,8 +299,8 @@ func (u *Unit) mapDelete(st *State, t *types.Map, m Term, k Val) {
 	card := tSel(ch, m)
 	u.assumeOnce(st, tLe("0", card))
 	u.assumeOnce(st, tImp(had, tLt("0", card)))
-	u.logWrite(c, m)
-	u.logWrite(d, m)
+	u.logWrite(st, c, m)
+	u.logWrite(st, d, m)
 	u.setHeap(st, c, sArr(SInt, SInt), tStore(ch, m, tIte(had, tSub(card, "1"), card)))
 	u.setHeap(st, d, dsort, tStore(dh, m, tStore(tSel(dh, m), k.S, "false")))
 }
@@ -928,6 +929,7 @@ func (u *Unit) toIface(st *State, v Val, to types.Type) Val {
 		u.assumeOnce(st, tImp(tNot(tEq(v.S, "0")), tEq(tApp("dyntype", v.S), u.typeID(v.T))))
 		return scalar(v.S, SInt, to)
 	case *types.Map, *types.Chan, *types.Signature:
+		u.assumeOnce(st, tImp(tNot(tEq(v.S, "0")), tEq(tApp("dyntype", v.S), u.typeID(v.T))))
 		return scalar(v.S, SInt, to)
 	}
 	// box
